@@ -76,6 +76,18 @@ VM_ALLOCATE = {"main": "src/virtual_machine.cpp", "keep": ["VmBase::allocate", "
 SS_SELECT = {'main': 'src/superscalar.cpp', 'keep': ['SuperscalarInstruction::selectDestination', 'SuperscalarInstruction::selectSource', 'selectRegister'], 'pre_rewrites': [{'name': 'std::vector<int> local -> fixed-capacity list', 'pattern': '\\b(static\\s+)?std::vector<int> (\\w+);', 'repl': '\\1rxv_ivec8 \\2 = { { 0 }, 0 };'}, {'name': 'vector push_back', 'pattern': '\\b(\\w+)\\.push_back\\(', 'repl': 'rxv_ivec8_push(&\\1, '}, {'name': 'vector clear', 'pattern': '\\b(\\w+)\\.clear\\(\\)', 'repl': 'rxv_ivec8_clear(&\\1)'}, {'name': 'vector size', 'pattern': '\\b(\\w+)\\.size\\(\\)', 'repl': 'rxv_ivec8_size(&\\1)'}, {'name': 'vector index', 'pattern': '\\bavailableRegisters\\[(\\w+)\\]', 'repl': 'rxv_ivec8_at(&availableRegisters, \\1)'}, {'name': 'instruction type query -> stand-in', 'pattern': 'info_->getType\\(\\)', 'repl': 'rxv_info_type(info_)'}, {'name': 'generator draw -> stand-in', 'pattern': 'gen\\.getUInt32\\(\\)', 'repl': 'rxv_gen_u32(&gen)'}], 'opaque_classes': ['MacroOp', 'SuperscalarInstructionInfo', 'DecoderBuffer', 'Blake2Generator'], 'drop_vars': ['SuperscalarInstruction::Null', 'SuperscalarInstruction_Null', '\\bslot_\\w+', 'buffer\\d', 'decodeBuffers?', '\\bNull\\b'], 'vector_as': {'int': 'rxv_ivec8'}}
 SS_SELECT["must_fire"] = {"recipe rewrite: std::vector<int> local -> fixed-capacity list": 2, "recipe rewrite: vector push_back": 2}
 
+DEALLOC_CACHE = {"main": "src/dataset.cpp", "keep": ["deallocCache"],
+                 "pre_rewrites": [{"name": "Allocator::freeMemory -> allocator stand-in", "pattern": r"Allocator::freeMemory\(", "repl": "rxv_Allocator_freeMemory("}],
+                 "must_fire": {"recipe rewrite: Allocator::freeMemory -> allocator stand-in": 1, "delete -> rxv_delete": 1}}
+RX_ALLOC = {"main": "src/randomx.cpp", "keep": ["randomx_alloc_cache", "randomx_release_cache", "randomx_alloc_dataset", "randomx_release_dataset"],
+            "not_methods": ["initialize", "dealloc"],
+            "exceptions": {"may_throw": ["rxv_new_randomx_cache", "rxv_new_randomx_dataset", "rxv_new_JitCompiler", "rxv_DefaultAllocator_allocMemory", "rxv_LargePageAllocator_allocMemory"]},
+            "pre_rewrites": [{"name": "numeric_limits<size_t>::max() -> SIZE_MAX", "pattern": r"std::numeric_limits(?:<[^>]*>)?::max\(\)", "repl": "SIZE_MAX"},
+                             {"name": "allocator calls -> stand-ins", "pattern": r"randomx::(Default|LargePage)Allocator::allocMemory\(", "repl": r"rxv_\1Allocator_allocMemory("},
+                             {"name": "dealloc instantiations -> stand-ins", "pattern": r"&randomx::dealloc(Cache|Dataset)<randomx::(Default|LargePage)Allocator>", "repl": r"&rxv_dealloc\1_\2"}],
+            "must_fire": {"try/catch -> exception flow model": 2, "recipe rewrite: allocator calls -> stand-ins": 6, "recipe rewrite: dealloc instantiations -> stand-ins": 6,
+                          "exception flow: exits from try block after may-throw calls": 9}}
+
 # randomx_init_cache: std::string operations -> the abstract string model of the extractor prelude
 STR_OPS = [{"name": "local std::string -> rxv_string", "pattern": r"\bstd::string (\w+);", "repl": r"rxv_string \1 = { 0, 0, 0 };"},
            {"name": "std::string::assign -> rxv_string_assign", "pattern": r"\b(\w+(?:->\w+)*)\.assign\(", "repl": r"rxv_string_assign(&\1, "},
